@@ -293,3 +293,35 @@ func tierN(tier string, quick, thorough int) int {
 	}
 	return quick
 }
+
+// Emitter appends JSON lines to a job's output file (used by the engines that do not need a simulation).
+type Emitter struct{ f *os.File }
+
+// Emit writes one record.
+func (e *Emitter) Emit(v any) {
+	b, _ := json.Marshal(v)
+	e.f.Write(append(b, '\n'))
+	e.f.Sync()
+}
+
+// OpenJob reads the job named by VERIF_JOB; nil if the variable is unset.
+func OpenJob(t *testing.T) (*Job, *Emitter) {
+	path := os.Getenv("VERIF_JOB")
+	if path == "" {
+		return nil, nil
+	}
+	raw, err := os.ReadFile(path)
+	if err != nil {
+		t.Fatal(err)
+	}
+	var job Job
+	if err := json.Unmarshal(raw, &job); err != nil {
+		t.Fatal(err)
+	}
+	out, err := os.OpenFile(job.Out, os.O_CREATE|os.O_WRONLY|os.O_APPEND, 0o644)
+	if err != nil {
+		t.Fatal(err)
+	}
+	_ = os.MkdirAll(job.Dir, 0o755)
+	return &job, &Emitter{out}
+}
